@@ -27,9 +27,12 @@ func (l *httpFileSystemLoader) Open(name string) (io.ReadCloser, error) {
 
 // Exists implements Loader.Exists() on top of an http.FileSystem by trying to open the file.
 func (l *httpFileSystemLoader) Exists(name string) bool {
-	if f, err := l.Open(name); err == nil {
-		f.Close()
-		return true
+	f, err := l.fs.Open(name)
+	if err != nil {
+		return false
 	}
-	return false
+	defer f.Close()
+	// directories can be opened too, but they are not templates
+	stat, err := f.Stat()
+	return err == nil && !stat.IsDir()
 }
